@@ -194,7 +194,7 @@ var r02Funcs = []string{
 // symmetric functions: x/y twins must be exact mirror images
 var r02Symmetric = map[string]bool{
 	"pointindex.PointIndex.InsertPoint": true, "pointindex.PointIndex.insertCoord": true, "pointindex.PointIndex.getQuadrantExtentAndCentroid": true,
-	"pointindex.containsPoint": true, "pointindex.getQuadrantZs": true,
+	"pointindex.containsPoint": true, // getQuadrantZs: decided exactly by R03 quadrant-bit-layout-agrees (symbolic, per quadrant number)
 }
 
 // R02: x and y are treated alike — no x-flavoured operand in a y computation
@@ -669,18 +669,55 @@ func r03HalfOpenTables(c *core.Ctx) {
 		rightC, _ := pk.Types.Scope().Lookup("right").(*types.Const)
 		topC, _ := pk.Types.Scope().Lookup("top").(*types.Const)
 		layout := rightC != nil && topC != nil && rightC.Val().ExactString() == "1" && topC.Val().ExactString() == "2" && shl
-		oir := c.Anchor(R, "pointindex.oneIfRight")
-		oit := c.Anchor(R, "pointindex.oneIfTop")
-		if oir != nil && oit != nil {
-			a, b := canon(oir.Decl.Body.List[0].(*ast.ReturnStmt).Results[0]), canon(oit.Decl.Body.List[0].(*ast.ReturnStmt).Results[0])
-			if a != "quadrantI&right" || b != "(quadrantI&top)>>1" {
-				layout = false
+		// getQuadrantZs: for each quadrant number k = 0..3 the child address handed to the morton encoder is
+		// (2*parentX + bit0(k), 2*parentY + bit1(k)) -- evaluated symbolically in the parent address with k fixed,
+		// helper functions (oneIfRight/oneIfTop or whatever replaces them) inlined
+		{
+			ginfo := gz.Pkg.TypesInfo
+			var loopVar, px, py types.Object
+			var loopBody *ast.BlockStmt
+			for _, st := range gz.Decl.Body.List {
+				switch x := st.(type) {
+				case *ast.AssignStmt:
+					if len(x.Lhs) == 2 && len(x.Rhs) == 1 {
+						if call, ok := x.Rhs[0].(*ast.CallExpr); ok && core.IsCallTo(ginfo, call, "morton.FromZ") {
+							px, py = core.ObjOf(ginfo, x.Lhs[0]), core.ObjOf(ginfo, x.Lhs[1])
+						}
+					}
+				case *ast.ForStmt:
+					if as, ok := x.Init.(*ast.AssignStmt); ok && len(as.Lhs) == 1 && canon(as.Rhs[0]) == "0" && x.Cond != nil && strings.HasSuffix(canon(x.Cond), "<4") {
+						loopVar, loopBody = core.ObjOf(ginfo, as.Lhs[0]), x.Body
+					}
+				case *ast.RangeStmt:
+					if x.Key != nil && (canon(x.X) == "4" || strings.Contains(core.TypeShort(ginfo.TypeOf(x.X)), "[4]")) {
+						loopVar, loopBody = core.ObjOf(ginfo, x.Key), x.Body
+					}
+				}
 			}
-		}
-		// getQuadrantZs: x from oneIfRight, y from oneIfTop (checked by R02 mirror) and child = parent*2 + bit
-		zs := canonNode(c.P, gz.Decl.Body)
-		if !strings.Contains(zs, "parentX*2+uint(oneIfRight(i))") || !strings.Contains(zs, "parentY*2+uint(oneIfTop(i))") {
-			layout = false
+			if loopVar == nil || loopBody == nil || px == nil || py == nil {
+				layout = false
+			} else {
+				for k := int64(0); k < 4; k++ {
+					env := newSymEnv(c.P, ginfo)
+					env.vars[px], env.vars[py], env.vars[loopVar] = pSym("PX"), pSym("PY"), pInt(k)
+					env.run(loopBody.List)
+					var enc *ast.CallExpr
+					for _, call := range core.CallsIn(ginfo, loopBody, "morton.MustToZ", "morton.ToZ") {
+						enc = call
+					}
+					if enc == nil || len(enc.Args) != 2 {
+						layout = false
+						break
+					}
+					x, ok1 := env.eval(enc.Args[0])
+					y, ok2 := env.eval(enc.Args[1])
+					wantX := pAdd(pMul(pSym("PX"), pInt(2)), pInt(k&1), 1)
+					wantY := pAdd(pMul(pSym("PY"), pInt(2)), pInt(k>>1), 1)
+					if !ok1 || !ok2 || !pEq(x, wantX) || !pEq(y, wantY) {
+						layout = false
+					}
+				}
+			}
 		}
 		c.Check(R, "quadrant-bit-layout-agrees/pointindex", iq.Decl.Pos(), layout, "isRight | isTop<<1 in getInfiniteQuadrant, right=1/top=2 in oneIfRight/oneIfTop, child = 2*parent + bit in getQuadrantZs", "the quadrant numbering used to classify points differs from the one used to address child pixels")
 	}
